@@ -157,7 +157,10 @@ def r3_weights(chk):
         av = [c for c in walk_no_nested(f.node) if isinstance(c, ast.Call) and call_name(c) == "np.average"]
         key = f"{f.key}:weights-iff-weighted"
         if len(av) == 1:
+            from ..canon import Env
+
             w = kwarg(av[0], "weights")
+            w = Env(f.node).expand(w) if w is not None else None  # `weights = ens.weights if weighted else None` named first
             ax = kwarg(av[0], "axis")
             ok = w is not None and norm(w) in ("ens.weights if weighted else None", "None if not weighted else ens.weights") and ax is not None and norm(ax) == "0"
             chk.decide(ok, "C19.R3", key, f.where(av[0]), "np.average(..., axis=0, weights=ens.weights if weighted else None)",
@@ -235,8 +238,35 @@ def r5_axes(chk):
         return s
 
     forms = {}
-    for idx, axis in enumerate("xyz"):
-        forms[axis] = (canon(f"n{axis}", idx, axis), canon(f"o{axis}", idx, axis), canon(f"{axis}s", idx, axis))
+    from ..canon import Env
+
+    env = Env(f.node)
+    comps = {n: v for n, vals in asg.items() for v in vals if isinstance(v, ast.ListComp) and len(v.generators) == 1 and isinstance(v.generators[0].target, ast.Name)
+             and norm(env.expand(v.generators[0].iter)) == "range(3)" and not v.generators[0].ifs and len(vals) == 1}
+    lat_unpack = [s for s in walk_no_nested(f.node) if isinstance(s, ast.Assign) and isinstance(s.targets[0], ast.Tuple) and len(s.targets[0].elts) == 3
+                  and isinstance(s.value, ast.ListComp) and "linspace" in norm(s.value.elt)]
+    if not asg.get("nx") and len(comps) >= 2 and len(lat_unpack) == 1:
+        # comprehension idiom: counts = [N(k) for k in range(3)]; offsets = [O(k) ...]; xs, ys, zs = [linspace(...) for k in range(3)]
+        lc = lat_unpack[0].value
+        cn = [n for n, v in comps.items() if norm(v.elt).startswith("int(")]
+        on = [n for n, v in comps.items() if n not in cn]
+        if len(cn) != 1 or len(on) != 1 or norm(env.expand(lc.generators[0].iter)) != "range(3)":
+            raise AnalysisError("rectangular_grid: per-axis comprehensions not recognised - unknown idiom")
+
+        def kform(v, k):
+            s = norm(v)
+            s = re.sub(rf"\b{re.escape(cn[0])}\[{k}\]", "n", s)
+            s = re.sub(rf"\b{re.escape(on[0])}\[{k}\]", "o", s)
+            return re.sub(rf"\[{k}\]", "[i]", s)
+
+        one = (kform(comps[cn[0]].elt, comps[cn[0]].generators[0].target.id), kform(comps[on[0]].elt, comps[on[0]].generators[0].target.id), kform(lc.elt, lc.generators[0].target.id))
+        forms = {a: one for a in "xyz"}
+        # the meshgrid rule below names the three lattices as they are unpacked
+        lat_names = [norm(t) for t in lat_unpack[0].targets[0].elts]
+    else:
+        lat_names = ["xs", "ys", "zs"]
+        for idx, axis in enumerate("xyz"):
+            forms[axis] = (canon(f"n{axis}", idx, axis), canon(f"o{axis}", idx, axis), canon(f"{axis}s", idx, axis))
     same = len(set(forms.values())) == 1
     chk.decide(same, "C19.R5", f"{f.key}:axes-computed-alike", f.where(), f"n = {forms['x'][0]}; o = {forms['x'][1]}; lattice = {forms['x'][2]}",
                f"the three axes are computed differently: {forms}")
@@ -248,5 +278,5 @@ def r5_axes(chk):
     chk.decide(len(pad) == 2 and pad[0].endswith("- padding") and pad[1].endswith("+ padding"), "C19.R5", f"{f.key}:padded-box", f.where(), "l = r1 - padding; r = r2 + padding",
                f"the box corners are {pad}: padding is not subtracted from the lower and added to the upper corner")
     mg = [c for c in walk_no_nested(f.node) if isinstance(c, ast.Call) and call_name(c) == "np.meshgrid"]
-    chk.decide(len(mg) == 1 and [norm(a) for a in mg[0].args] == ["xs", "ys", "zs"], "C19.R5", f"{f.key}:meshgrid-order", f.where(mg[0] if mg else None), "meshgrid(xs, ys, zs)",
+    chk.decide(len(mg) == 1 and [norm(a) for a in mg[0].args] == lat_names, "C19.R5", f"{f.key}:meshgrid-order", f.where(mg[0] if mg else None), "meshgrid(xs, ys, zs)",
                "the lattice axes are not combined as (xs, ys, zs)")
